@@ -22,6 +22,7 @@ import (
 	"encoding/json"
 	"errors"
 	"fmt"
+	"io"
 	"math/big"
 	"reflect"
 	"runtime/debug"
@@ -98,6 +99,17 @@ func checkSign(p signP) *mc.Viol {
 	}
 	if err != nil || !bytes.Equal(sig2, want) {
 		return &mc.Viol{Sig: "PrivateKey.Sign output differs from crypto/ed25519", What: fmt.Sprintf("seed=%s len(msg)=%d err=%v fork=%x std=%x", p.Seed, len(msg), err, sig2, want)}
+	}
+	// the crypto.Signer entry point with a reader: Ed25519 signing is deterministic, crypto/ed25519
+	// ignores the reader, and so must the fork (same bytes, reader untouched or not - the bytes decide)
+	for _, rd := range []io.Reader{mc.NewStream(0, "c14-signer-rand-a"), mc.NewStream(1, "c14-signer-rand-b"), bytes.NewReader(nil)} {
+		var sig3 []byte
+		if pn := mc.Catch(func() { sig3, err = priv.Sign(rd, msg, crypto.Hash(0)) }); pn != "" {
+			return &mc.Viol{Sig: "PrivateKey.Sign panics when given an entropy reader", What: fmt.Sprintf("seed=%s len(msg)=%d: %s", p.Seed, len(msg), pn)}
+		}
+		if err != nil || !bytes.Equal(sig3, want) {
+			return &mc.Viol{Sig: "PrivateKey.Sign with an entropy reader differs from crypto/ed25519", What: fmt.Sprintf("seed=%s len(msg)=%d err=%v fork=%x std=%x", p.Seed, len(msg), err, sig3, want)}
+		}
 	}
 	var okv bool
 	if pn := mc.Catch(func() { okv = ed.Verify(pub, msg, want) }); pn != "" || !okv {
